@@ -79,18 +79,18 @@ CHECKS = {
     'C11': ('fault_enumeration',
             'bounded exhaustive enumeration of (target spine, destination, spelling, value, missing factory incl. factories failing on their n-th call, unassignable nodes) executed on the real assign/Assign against plain Python nested assignment on a copy',
             'Every spine of depth <= 2 (thorough: 3) over dict, list, tuple, object, read-only-property object and raising-__setattr__ object x leaf x destination = every '
-            'existing prefix + 14 continuations (overwrite, new key, in/out-of-range and non-integer index, 1-2 absent intermediates) x 5 spellings incl. S-rooted x 5 value kinds '
+            'existing prefix + 14 continuations (overwrite, new key, in/out-of-range and non-integer index, 1-2 absent intermediates) x 6 spellings incl. S-rooted and a T chain whose last step uses the other access kind x 5 value kinds '
             '(incl. self-referential) x 8 missing settings (incl. factory raising on call 1 / 2) x function/spec form: success <=> plain assignment succeeds; canonical cycle-safe '
             'snapshot equals the reference copy; same object returned; spine nodes keep identity; read-back; factory call count; every failure leaves the snapshot unchanged.',
-            'One-step assignment semantics as listed in the check; wildcard destinations are decided in C14.',
+            'One-step assignment semantics as listed in the check; destinations with 1-4 wildcards are decided by the wildcard-assign sub-check (shared with C14), where atomicity is not claimed.',
             '3/C11'),
     'C12': ('fault_enumeration',
             'bounded exhaustive enumeration of (target spine, path, spelling, ignore_missing, undeletable nodes) executed on the real delete/Delete against plain Python del on a copy',
             'Every spine of depth <= 2 (thorough: 3) over the six node kinds x leaf x path = every existing prefix + 13 continuations (present/absent key, index, attribute, absent parent) '
-            'x 5 spellings incl. S-rooted x ignore_missing x function/spec form: same object returned and snapshot equals the copy after plain del; missing final element -> '
+            'x 6 spellings incl. S-rooted and a T chain whose last step uses the other access kind x ignore_missing x function/spec form: same object returned and snapshot equals the copy after plain del; missing final element -> '
             'PathDeleteError, missing parent -> PathAccessError, silently ignored with ignore_missing; faults (tuple, raising __delattr__, read-only property) -> exception; '
             'target snapshot unchanged in every non-success case.',
-            'One-step deletion semantics as listed in the check; wildcard deletion is decided in C14.',
+            'One-step deletion semantics as listed in the check; paths with 1-4 wildcards are decided by the wildcard-delete sub-check (shared with C14).',
             '3/C12'),
     'C15': ('model_checking',
             'bounded exhaustive enumeration of (reduction spec, input sequence) with every spec object evaluated three times, against functools.reduce / sum / chain.from_iterable / dict.update',
@@ -165,8 +165,8 @@ CHECKS = {
             'Nine colliding pool calls (same path text with a cold path cache, one shared spec object with argument-mode containers / Coalesce default / Fill / Group, the same user type '
             'with a cold registry memo, scope bindings with mode switches, failing calls whose trace is the outcome). Callables: ALL interleavings of every pair (thorough: selected triples) '
             'with yield points inside instrumented callables. Lines: a scheduling point at every line event of glom/*.py, preemption bound 1 - thread A preempted at (every 2nd; thorough: every) '
-            'point, B runs to completion, A resumes, both orders. Hot-lines: preemption bound 2 over the lines of the functions touching process-wide state. Thorough adds bound 2 at '
-            'function-entry granularity. Re-entrancy: every chain of <= 3 pool calls nested through a callable, inner failures caught or propagating. Oracle: each call equals its isolated '
+            'point, B runs to completion, A resumes, both orders. Hot-lines: preemption bound 2 over the lines of the functions touching process-wide state. Calls: preemption bound 2 at function-entry '
+            'granularity over all of glom/*.py (quick: the pairs sharing a spec object; thorough: 12 pairs). Re-entrancy: every chain of <= 3 pool calls nested through a callable, inner failures caught or propagating. Oracle: each call equals its isolated '
             'outcome (value, or error class + scrubbed trace); isolated runs are replayed twice to prove determinism.',
             'Switches inside one source line and C-level races are not explored; free-running threads are a non-deciding smoke pass.',
             '3/C20'),
